@@ -21,6 +21,11 @@ TRUSTED = [
     'exactly symmetric / Hermitian or off by >= 1/8)',
 ]
 ASSUMPTIONS = [
+    'argument types (hardening streams): only what the unmodified tree accepts is generated — numpy in-place casting rules for '
+    '*= and /= (int arrays only with ints, real arrays not with complex scalars), tensor entries read by '
+    'get_fermion_operator must be float64 / complex128 (SymbolicOperator accepts int / float / complex subclasses only), '
+    'Python bool tensor constants are excluded (numpy.add / numpy.subtract on two bools are logical operations), operators '
+    'with no ladder operator (n_qubits = 0) are excluded from the three scatter conversions',
     'tensor entries, rotation matrices and coefficients are dyadic Gaussian rationals (exact float arithmetic) except the '
     '(3+4i)/5 rotation blocks, which are compared at absolute tolerance 1e-9 and counted as float comparisons',
     'each n_body_tensors[key] has shape (n_qubits,)*len(key); keys contain only 0/1',
